@@ -14,11 +14,16 @@
 EXTENDS Naturals, Sequences, FiniteSets, TLC, Json
 
 CONSTANTS MaxLines,
+          Shapes,        \* "core": the 24 basic entry shapes (deeper bound) | "all": every shape (empty location, a display
+                         \* name equal to the name, a type with two colons)
           DevKeepLast    \* as-built deviation: the py:module guard never fires (keeps the last)
 
 Names == {"m", "m x"}
-Types == {<<"py", "module", TRUE>>, <<"py", "func", TRUE>>, <<"bad", "", FALSE>>}
-Entries == {e \in [name : Names, ty : Types, dollar : BOOLEAN, eloc : BOOLEAN, disp : {"-", "T"}] : e.eloc => ~e.dollar}
+Types == {<<"py", "module", TRUE>>, <<"py", "func", TRUE>>, <<"bad", "", FALSE>>,
+          <<"rst", "directive:option", TRUE>>}          \* the type field is split at its FIRST colon only
+Entries == {e \in [name : Names, ty : Types, dollar : BOOLEAN, eloc : BOOLEAN, disp : {"-", "T", "m"}] :      \* ("m": a display name equal to the name m)
+               /\ (e.eloc => ~e.dollar)
+               /\ (Shapes = "core" => ~e.eloc /\ e.disp # "m" /\ e.ty[1] # "rst")}
 Frag(e, k) == "q" \o ToString(k)          \* literal fragment of line k (distinguishes lines)
 
 VARIABLES lines, pos, res
